@@ -666,6 +666,92 @@ def _check_reconnect(run, repo, world, mod):
            "'connected' (found: schedule=%d reset=%d handshake=%d "
            "report=%d)" % (len(sched), len(reset), len(hand), len(told)),
            where(mod, cfn))
+    # whatever errno the open fails with (ENOENT while the node is gone,
+    # EACCES before udev has set the permissions, ENODEV / EIO while the
+    # device resets), the failure is caught and a new attempt scheduled: the
+    # handler around os.open() covers OSError, and from it every path to
+    # the end of connect() passes the scheduling call
+    from ..cfg import CFG, explicit_raise_only
+    parent = {}
+    for n in ast.walk(cfn):
+        for ch in ast.iter_child_nodes(n):
+            if not isinstance(ch, ast.expr_context):
+                parent[id(ch)] = n
+    opens = [c for c in ast.walk(cfn) if isinstance(c, ast.Call) and
+             unparse(c.func) in ("os.open", "open")]
+    if not opens:
+        raise AnalysisError("hid.connect: the call that opens the device is "
+                            "not found")
+    COVER = {"OSError", "IOError", "EnvironmentError", "Exception",
+             "BaseException"}
+    def open_may_raise(node):
+        return explicit_raise_only(node) or (
+            node.ast is not None and node.kind in ("stmt", "test") and any(
+                x is c for c in opens for x in ast.walk(node.ast)))
+    ccfg = CFG(cfn, may_raise=open_may_raise, name="hid.connect")
+    sched_ids = {n.id for n in ccfg.reachable if n.ast is not None and
+                 n.kind in ("stmt", "test") and any(
+                     c is x for c in sched for x in ast.walk(n.ast))}
+    for oc in opens:
+        p_, child = parent.get(id(oc)), oc
+        handlers = None
+        while p_ is not None:
+            if isinstance(p_, ast.Try) and any(
+                    child is b_ for b_ in p_.body):
+                hs = [h for h in p_.handlers if h.type is None or (
+                    {unparse(t) for t in (
+                        h.type.elts if isinstance(h.type, ast.Tuple)
+                        else [h.type])} & COVER)]
+                if hs:
+                    handlers = hs
+                    break
+            child, p_ = p_, parent.get(id(p_))
+        run.ob("R-RECONNECT", HID + ".hid.connect#open-failure-caught",
+               handlers is not None,
+               "os.open() can fail with any OSError (EACCES, ENODEV, EIO, "
+               "not only a missing node); no handler around it covers "
+               "OSError, so such a failure escapes connect(), ends the "
+               "reconnect task and nobody ever tries again",
+               where(mod, oc))
+        for h in handlers or []:
+            starts = [n for n in ccfg.reachable if n.kind == "except" and
+                      n.ast is h]
+            # path-sensitive: the handler's `self._f = None` decides the
+            # `if not self._f` that follows
+            from ..cfg import forward_worlds
+            from ..seq import cond_edge_transfer, kill_conds_on_assign
+            cet_ = cond_edge_transfer()
+
+            def tr_(node, w):
+                w = kill_conds_on_assign(node, w)
+                a_ = node.ast
+                if node.kind == "except" and a_ is h:
+                    w = w | {("in-handler",)}
+                if node.id in sched_ids:
+                    w = w | {("scheduled",)}
+                if node.kind == "stmt" and isinstance(a_, ast.Assign) and \
+                        len(a_.targets) == 1 and isinstance(
+                            a_.targets[0], ast.Attribute):
+                    t_ = unparse(a_.targets[0])
+                    w = frozenset(f for f in w if not (
+                        f[0] == "cond" and t_ in f[1]))
+                    if isinstance(a_.value, ast.Constant):
+                        w = w | {("cond", t_, bool(a_.value.value)),
+                                 ("cond", "%s is None" % t_,
+                                  a_.value.value is None)}
+                return w
+            Wc = forward_worlds(ccfg, tr_, cet_)
+            bad_w = [w for w in Wc.at(ccfg.exit)
+                     if ("in-handler",) in w and ("scheduled",) not in w]
+            escaped = bool(bad_w)
+            if escaped:
+                run.note("connect(): unscheduled path %s" % " -> ".join(
+                    "L%s" % x.lineno for x in Wc.trace(ccfg.exit, bad_w[0])
+                    if x.lineno))
+            run.ob("R-RECONNECT", HID + ".hid.connect#failure-schedules",
+                   bool(starts) and not escaped,
+                   "after a failed open a path leaves connect() without "
+                   "scheduling _reconnect()", where(mod, h))
     o, dfn = _fn(world, HID + ".hid", "disconnect")
     rp = dfn.args.args[1].arg if len(dfn.args.args) > 1 else "reconnect"
     guarded = False
